@@ -194,6 +194,12 @@ func (o OpSpec) Proto() *spb.AFTOperation {
 			if v, ok := xs[3]; ok { // pop-top-label: 1 = true, 2 = explicitly false
 				e.PopTopLabel = &ywrapper.BoolValue{Value: v == 1}
 			}
+			if v, ok := xs[4]; ok { // a list of v encapsulation headers (a keyed list: its order on the wire is not fixed)
+				for i := uint64(1); i <= v; i++ {
+					e.EncapHeader = append(e.EncapHeader, &aftpb.Afts_NextHop_EncapHeaderKey{Index: i,
+						EncapHeader: &aftpb.Afts_NextHop_EncapHeader{Type: enums.OpenconfigAftTypesEncapsulationHeaderType(4)}})
+				}
+			}
 			if o.Bad {
 				e.EncapsulateHeader = enums.OpenconfigAftTypesEncapsulationHeaderType(99)
 			}
@@ -398,6 +404,9 @@ func Canon(contents map[string]*aft.RIB) []CanonNI {
 				}
 				if nh.PopTopLabel != nil {
 					x = append(x, [2]uint64{3, map[bool]uint64{true: 1, false: 2}[*nh.PopTopLabel]})
+				}
+				if len(nh.EncapHeader) > 0 {
+					x = append(x, [2]uint64{4, uint64(len(nh.EncapHeader))})
 				}
 				l = append(l, kv{idx, fmt.Sprintf("mk_nh %s", coqX(x))})
 			}
